@@ -85,6 +85,50 @@ def oracle_mount(cwd, keys, path, obs):
     return None
 
 
+def histories(rng, n):
+    """operation histories on ONE VirtualOS: Chdir between directories under different mounts (and under none),
+    the same relative strings used again and again"""
+    out = []
+    dirs = ["/", "/a", "/a/b", "/b", "/b/a", "/c", "/a/../b", "/a/b/..", "/..a", "/a..", "a", "."]
+    rels = ["f", "a", "b", "a/f", "./f", "../f", "../a/f", "..", ".", "b/../f", "", "a/", "../../f", "..a", "/a/f", "/b", "/c/f"]
+    for _ in range(n):
+        cwd, keys = LAYOUTS[rng.below(len(LAYOUTS))]
+        pool = [rng.choice(rels) for _ in range(1 + rng.below(3))]
+        ops = []
+        for _ in range(2 + rng.below(9)):
+            if rng.chance(1, 3):
+                ops.append(("C", rng.choice(dirs)))
+            else:
+                ops.append(("U", rng.choice(pool) if rng.chance(4, 5) else rng.choice(rels)))
+        if not any(o[0] == "U" for o in ops):
+            ops.append(("U", pool[0]))
+        out.append((cwd, keys, ops))
+    return out
+
+
+def oracle_history(cwd, keys, ops, obs):
+    """independent replay: each use is judged against the directory set by the last Chdir"""
+    cur = cwd
+    i = 0
+    for kind, arg in ops:
+        if kind == "C":
+            cur = arg
+            continue
+        if i >= len(obs):
+            return "fewer observations than uses"
+        o = obs[i]
+        i += 1
+        if o == "MULTI":
+            return "use #%d (%r) reached more than one mount" % (i, arg)
+        txt = "NONE" if o == "NONE" else "\t".join(bytes.fromhex(x).decode("utf-8", "replace") for x in o.split(":"))
+        if not cur.startswith("/"):
+            continue      # relative working directory: joined as is, outside the oracle's reading of the property
+        why = oracle_mount(cur, keys, arg, txt)
+        if why:
+            return "use #%d with working directory %r: %s" % (i, cur, why)
+    return None
+
+
 # ------------------------------------------------------------------ running both sides
 
 def run_pipe(cmd, stdin_path=None, out_path=None):
@@ -187,6 +231,16 @@ def _run_body(res, tier, obs, model, work, maxseg, mount_seg, lfs_seg, nrand, pr
             futs.append(ex.submit(run_pipe, [obs, "stdin-mounts", cwd, ",".join(keys)], rnd_f, g2))
             futs.append(ex.submit(run_pipe, [model, "stdin-mounts", cwd, ",".join(keys)], rnd_f, m2))
             jobs.append(("mounts-hex", (cwd, keys), g2, m2))
+        nhist = 6000 if tier == "quick" else 120000
+        hists = histories(rng, nhist)
+        hist_f = os.path.join(work, "hist.txt")
+        with open(hist_f, "w") as f:
+            for cwd, keys, ops in hists:
+                f.write("%s %s %s\n" % (cwd.encode().hex(), ",".join(k.encode().hex() for k in keys),
+                                        ";".join(k + a.encode().hex() for k, a in ops)))
+        hist_go, hist_mo = os.path.join(work, "hist_go"), os.path.join(work, "hist_mo")
+        futs.append(ex.submit(run_pipe, [obs, "hist"], hist_f, hist_go))
+        futs.append(ex.submit(run_pipe, [model, "hist"], hist_f, hist_mo))
         lfs_out = os.path.join(work, "lfs.txt")
         futs.append(ex.submit(run_pipe, [obs, "localfs", str(lfs_seg)], None, lfs_out))
         rcs = [f.result() for f in futs]
@@ -256,6 +310,28 @@ def _run_body(res, tier, obs, model, work, maxseg, mount_seg, lfs_seg, nrand, pr
             k0 = sorted(go_lines)[len(go_lines) // 3]
             samples.append({"stage": kind, "params": params, "input": k0, "impl": go_lines[k0], "model": mo_lines.get(k0)})
 
+    # histories on one VirtualOS (Chdir between lookups)
+    hg = open(hist_go).read().splitlines()
+    hm = open(hist_mo).read().splitlines()
+    hist_uses = 0
+    hist_chdirs = 0
+    for idx, (cwd, keys, ops) in enumerate(hists):
+        g = hg[idx] if idx < len(hg) else None
+        m = hm[idx] if idx < len(hm) else None
+        evals += 1
+        hist_uses += sum(1 for o in ops if o[0] == "U")
+        hist_chdirs += sum(1 for o in ops if o[0] == "C")
+        if g != m and len(corr_diffs) < 50:
+            corr_diffs.append({"stage": "history", "params": (cwd, keys), "input": ops, "impl": g, "model": m})
+        if g is None:
+            continue
+        why = oracle_history(cwd, keys, ops, g.split(";") if g else [])
+        if why:
+            oracle_viol.append({"stage": "history", "params": (cwd, keys), "input": ops, "impl": g, "why": why})
+        elif any(o[0] == "C" for o in ops) and "NONE" != g:
+            nontrivial.add(("history", idx))
+    cov["histories"] = {"count": len(hists), "uses": hist_uses, "chdirs": hist_chdirs}
+
     lfs_viol = []
     lfs_summary = ""
     for line in open(lfs_out, "rb"):
@@ -281,10 +357,11 @@ def _run_body(res, tier, obs, model, work, maxseg, mount_seg, lfs_seg, nrand, pr
                    "segments (absolute/relative, with/without trailing separator: %d distinct strings) through os.ResolvePath "
                    "for %d bases and, with <= %d segments (%d strings), through every single- and two-path method of VirtualOS "
                    "over %d mount layouts with recording filesystems; %d seeded random Unicode/byte paths through both; "
+                   "%d operation histories on one VirtualOS (Chdir between mounts, the same relative strings reused); "
                    "every localfs method over a temp tree with sentinels outside the base (<= %d segments); each output compared "
                    "with the extracted Gallina model and judged by an independent Python oracle. Non-trivial = distinct inputs "
                    "containing '..' that resolve, or that are served by some mount." % (
-                       maxseg, npaths, len(BASES), mount_seg, npaths_m, len(LAYOUTS), len(rnd), lfs_seg))
+                       maxseg, npaths, len(BASES), mount_seg, npaths_m, len(LAYOUTS), len(rnd), len(hists), lfs_seg))
     cov["exhaustive"] = True
     cov["samples"] = samples
     cov["correspondence"] = {"cases": evals - lfs_evals, "differences": len(corr_diffs),
